@@ -13,6 +13,7 @@ them.
 
 import itertools
 import os
+import re
 import warnings
 
 from cbimon import cbi, hooks
@@ -59,7 +60,7 @@ def required_cells(tier):
               "lit:suffix-ull", "chr:plain", "chr:simple-escape", "chr:octal-escape", "chr:hex-escape",
               "defined:paren", "defined:bare", "identifier-as-zero", "macro-body-unparenthesised",
               "elif-after-taken/live-parent", "elif-after-taken/dead-parent", "via-file", "oppair:all",
-              "multi-line-comment-inside-condition"]
+              "multi-line-comment-inside-condition", "self-referential-macro-as-argument", "macro-uses-in-one-expression>=200"]
     return cells
 
 
@@ -246,6 +247,14 @@ def gen_e4():
     for e_ in ("EMPTY + 1 == 1", "EMPTY - 1 < 0", "! EMPTY 0", "(EMPTY 1)", "EMPTY EMPTY 2 == 2", "1 EMPTY + EMPTY 1 == 2", "EMPTY + 0",
                "-EMPTY 1 == -1", "EMPTY defined(EMPTY)", "2 * EMPTY 3 == 6"):
         yield e_, env, "E4"       # (invocations are C03's subject; cexpr models object-like macros only)
+    # one expression with hundreds of macro uses at nesting depth 1 (a generated flag mask, a sum of sizes): the
+    # expander's nesting limit (200) is about depth, not about the number of replacements in a directive
+    wide = dict(env, ONE="1", **{f"F{i}": str(1 << (i % 60)) for i in range(260)})
+    for n in (150, 199, 200, 201, 260):
+        yield " + ".join(["ONE"] * n) + f" == {n}", wide, "E4"
+        yield "(" + " | ".join(f"F{i}" for i in range(n)) + ") != 0", wide, "E4"
+        yield " + ".join(["CHAIN"] * n) + f" == {n}", wide, "E4"          # two replacements per use
+    yield " && ".join(f"defined(F{i})" for i in range(260)), wide, "E4"
     yield "Z\u00c4HLER * 2 == 6 && gr\u00f6\u00dfe == 2", env, "E4"
     yield "!defined(\u00c9T\u00c9) && d\u00e9fini + 1 == 1", env, "E4"
     yield "defined(Z\u00c4HLER) && defined gr\u00f6\u00dfe", env, "E4"
@@ -553,6 +562,8 @@ def classify(min_text, observed):
 # ------------------------------------------------------------------- run --
 def cells_for(expr, macros, val):
     cells = set()
+    if macros and sum(len(re.findall(r"\b%s\b" % re.escape(k), expr)) for k in ("ONE", "CHAIN")) + len(re.findall(r"\bF\d+\b", expr)) >= 200:
+        cells.add("macro-uses-in-one-expression>=200")
     try:
         ast = cexpr.parse_text(expr, macros)
     except Exception:
@@ -736,6 +747,38 @@ def file_path_check(ctx, cases, work, tag):
                          cells=["via-file"], cls="file")
 
 
+PAINTED_ENV = {"ID(x)": "x", "ID2(x)": "ID(x)", "COUNT": "COUNT + 1", "LEVEL": "LEVEL", "MAXI(a, b)": "((a) > (b) ? (a) : (b))",
+               "MUT1": "MUT2 + 1", "MUT2": "MUT1 + 2", "TWICE(x)": "x + x", "APPLY(f, x)": "f(x)", "STEP": "STEP * 2 + 3"}
+PAINTED = ["ID(COUNT) == 1", "ID(ID(COUNT)) == 1", "ID2(COUNT) == 1", "ID(COUNT) + COUNT == 2", "MAXI(COUNT, 0) == 1", "MAXI(LEVEL, 1) == 1",
+           "MAXI(LEVEL, 1) == 2", "ID(LEVEL) == 0", "ID(MUT1) == 3", "ID(MUT2) == 3", "TWICE(COUNT) == 2", "TWICE(STEP) == 6", "ID(STEP) == 3",
+           "APPLY(ID, COUNT) == 1", "ID(COUNT) == 2", "ID(COUNT + COUNT) == 2", "(ID(COUNT)) * 2 == 2", "ID(STEP) * 2 == 6", "!ID(LEVEL)",
+           "ID(defined(COUNT)) == 1", "ID(COUNT) == COUNT", "MAXI(ID(COUNT), ID(STEP)) == 3"]
+
+
+def painted_identifier_class(ctx, work, cbi_eval):
+    """A macro name that was NOT replaced because it occurred inside its own expansion stays unreplaced for good
+    (ISO C 6.10.3.4p2), also when the tokens are examined again as the argument of a function-like macro; what is
+    left counts as 0.  Oracle: gcc alone (the reference evaluator models object-like macros only)."""
+    acc = ctx.acc
+    g = gcc.eval_exprs([(e, PAINTED_ENV) for e in PAINTED], work, name="painted.c")
+    acc.hook("H-gcc-batch")
+    for k, (expr, (gt, gdiag)) in enumerate(zip(PAINTED, g)):
+        if not ctx.mine(k):
+            continue
+        if gt is None:
+            acc.excluded("gcc-diagnostic", cls="painted")
+            continue
+        st, val = cbi_eval(expr, PAINTED_ENV)
+        acc.hook("H-cbi-eval")
+        cells = {"self-referential-macro-as-argument"}
+        if st == "ok" and val == gt:
+            acc.held(cells=cells, nontrivial=(expr, "painted"), cls="painted", sample={"expr": expr, "macros": PAINTED_ENV, "truth": gt})
+        else:
+            acc.violated({"input": {"expr": expr, "macros": PAINTED_ENV},
+                          "witness": {"expr": expr, "macros": PAINTED_ENV, "expected_truth": gt, "observed": [st, val]}},
+                         cells=cells, nontrivial=(expr, "painted"), cls="painted")
+
+
 ELIF_BAD = ["", "(", "1 +", "1/0", "NOFUNC(1)", "EMPTY", "EMPTY == 1", "1 1", ")", "0x", "defined", "'ab'",
             "99999999999999999999999", "1 ? 2", "-7/2 == -3", "010 == 8", "-1 < 0u", "1u << 63", "'\\n' == 10"]
 
@@ -798,6 +841,7 @@ def run_shard(ctx):
     for k in range(0, len(held_pool), 400):
         file_path_check(ctx, held_pool[k:k + 400], work, f"{k}")
     elif_class(ctx, ctx.subdir("elif"))
+    painted_identifier_class(ctx, ctx.subdir("painted"), cbi_eval)
     acc.extra["numpy-runtime-warnings"] += cbi_eval.np_warnings
     if ctx.shard == 0:
         acc.cells["oppair:all"] += len(BINOPS) ** 2
